@@ -158,7 +158,33 @@ class Parser:
                 res.append(("const", name, ty, e))
             elif v == "type":
                 self.skip_to_semicolon_or_block()
-            elif v in ("use", "struct", "enum", "mod", "trait", "static", "extern"):
+            elif v == "enum":
+                save = self.i
+                self.i += 1
+                name = self.ident()
+                variants, ok = [], self.at("{")
+                if ok:
+                    self.i += 1
+                    while not self.at("}"):
+                        self.skip_attrs()
+                        if self.peek()[0] != "id":
+                            ok = False
+                            break
+                        variants.append(self.ident())
+                        if self.at("="):
+                            self.i += 1
+                            self.expr()
+                        if not self.opt(","):
+                            if not self.at("}"):
+                                ok = False
+                            break
+                if ok and self.at("}"):
+                    self.i += 1
+                    res.append(("enum", name, variants))
+                else:
+                    self.i = save
+                    self.skip_to_semicolon_or_block()
+            elif v in ("use", "struct", "mod", "trait", "static", "extern"):
                 self.skip_to_semicolon_or_block()
             else:
                 raise Unsupported(f"item starting with {v!r}")
@@ -475,6 +501,11 @@ class Parser:
         segs = [self.ident()]
         while self.opt("::"):
             segs.append(self.ident())
+        if len(segs) == 1 and segs[0][0].islower():
+            g = None
+            if self.opt("if"):
+                g = self.expr(no_struct=True)
+            return ("bind", segs[0], g)
         if segs == ["Some"]:
             self.eat("(")
             n = self.ident()
@@ -532,6 +563,10 @@ class Gen:
             return "Int"
         if ty == "()":
             return "Unit"
+        if ty in getattr(self, "enums", {}):
+            return ty
+        if ty.startswith("BytesN<"):
+            return "Nat"     # an opaque identifier, only passed through
         if ty == "bool":
             return "Bool"
         if ty == "Rounding":
@@ -556,6 +591,8 @@ class Gen:
         if e[0] == "bin" and e[1] in ("==", "!=", "<", ">", "<=", ">="):
             l, lt = self.pure(e[2], env)
             r, rt = self.pure(e[3], env)
+            if lt == rt and lt in getattr(self, "enums", {}) and e[1] in ("==", "!="):
+                return f"({l} {'=' if e[1] == '==' else '≠'} {r})"
             if not (is_int(lt) and is_int(rt)):
                 raise Unsupported(f"comparison of {lt} and {rt}")
             if lt in NATTY or rt in NATTY:
@@ -661,6 +698,21 @@ class Gen:
             return (f"envr.{e[1][1][1]}", self.reads[e[1][1][1]])
         if e[0] == "path" and len(e[1]) == 2 and e[1][0] == "Rounding":
             return (f"Rounding.{e[1][1]}", "Rounding")
+        if e[0] == "path" and len(e[1]) == 2 and e[1][0] in getattr(self, "enums", {}):
+            if e[1][1] not in self.enums[e[1][0]]:
+                raise Unsupported(f"unknown variant {e[1]}")
+            return (f"{e[1][0]}.{e[1][1]}", e[1][0])
+        if e == ("mcall", ("mcall", ("var", "e"), "ledger", []), "sequence", []) and "ledger_sequence" in getattr(self, "reads", {}):
+            self.uses_reads = True
+            return ("envr.ledger_sequence", self.reads["ledger_sequence"])
+        if e[0] == "call" and e[1][0] == "var" and e[1][1] in getattr(self, "reads", {}) and (self.cur_ns, e[1][1]) not in self.sigs:
+            # a state getter called with the environment and PARAMETERS of this function passed through
+            for a in e[2]:
+                a_ = self.strip(a)
+                if not (a_[0] == "var" and (a_[1] in ("e", "_e") or a_[1] in self.param_names)):
+                    raise Unsupported(f"state getter {e[1][1]} called with a computed argument")
+            self.uses_reads = True
+            return (f"envr.{e[1][1]}", self.reads[e[1][1]])
         if e[0] == "call" and e[1] == ("var", "Wad"):
             return (self.pure(e[2][0], env)[0], "Wad")
         if e[0] == "call" and e[1] == ("path", ["Wad", "from_raw"]):
@@ -743,6 +795,23 @@ class Gen:
         if got is not None:
             return k(got[0], got[1])
         kind = e[0]
+        if kind == "bin" and e[1] in ("==", "!=", "<", ">", "<=", ">=", "&&", "||"):
+            try:
+                c_ = self.cond(e, env)
+            except Unsupported:
+                c_ = None
+            if c_ is not None:
+                return k(f"(decide {c_})", "bool")
+            if e[1] in ("&&", "||"):
+                raise Unsupported("boolean operator over effectful operands in value position")
+            # a comparison whose operands are computed (e.g. a call): evaluate them, then compare
+            def kl(a, at):
+                def kr(b, bt):
+                    v1, v2 = self.fresh("c"), self.fresh("c")
+                    c2 = self.cond(("bin", e[1], ("var", v1), ("var", v2)), dict(env, **{v1: (a, at), v2: (b, bt)}))
+                    return k(f"(decide {c2})", "bool")
+                return self.tr(e[3], env, kr, ret)
+            return self.tr(e[2], env, kl, ret)
         if kind == "macro":
             if e[1] == "panic_with_error":
                 return self.panic()
@@ -782,7 +851,29 @@ class Gen:
         if kind == "block":
             return self.tr_block(e, env, k, ret)
         if kind == "match":
+            def km_int(sv, st):
+                # `match n { CONST => a, x if guard => b, _ => c }` on an integer: an if-chain
+                code_else = None
+                arms = list(e[2])
+                def build(i):
+                    if i == len(arms):
+                        raise Unsupported("integer match without a catch-all arm")
+                    p, body = arms[i]
+                    if p[0] == "wild":
+                        return self.tr(body, env, k, ret)
+                    if p[0] == "path" and len(p[1]) == 1 and p[1][0] in self.consts:
+                        c = as_nat(self.consts[p[1][0]][1], "int") if st in NATTY else self.consts[p[1][0]][1]
+                        return f"(if ({sv} = {c}) then\n {self.tr(body, env, k, ret)}\n else\n {build(i + 1)})"
+                    if p[0] == "bind":
+                        env2 = dict(env, **{p[1]: (sv, st)})
+                        if p[2] is None:
+                            return self.tr(body, env2, k, ret)
+                        return self.branch(p[2], env2, lambda: self.tr(body, env2, k, ret), lambda: build(i + 1), ret)
+                    raise Unsupported(f"pattern {p} on {st}")
+                return build(0)
             def km(s, st):
+                if st in NATTY or st in ("i128", "int", "u32"):
+                    return km_int(s, st)
                 # matches become calls of NAMED eliminators of the prelude (anonymous `match`es of
                 # different definitions do not unify in proofs)
                 arms = {}
@@ -1013,6 +1104,7 @@ class Gen:
         self.sigs_local = {("", n) for n in local_names}
         self.n = 0
         self.loops, self.aux, self.uses_fuel = 0, [], False
+        self.param_names = {pn for pn, _, _ in params}
         env, lparams = {}, []
         self_ty = impl_of[0] if impl_of else None
         for pn, pt, mut in params:
@@ -1044,6 +1136,13 @@ FILES_VAULT = [
       "preview_deposit", "preview_mint", "preview_withdraw", "preview_redeem"]),
 ]
 READS_VAULT = {"Vault": {"total_supply": "i128", "total_assets": "i128", "get_decimals_offset": "u32"}}
+
+FILES_TIMELOCK = [
+    ("Timelock", "packages/governance/src/timelock/mod.rs", []),      # constants and the state enum
+    ("Timelock", "packages/governance/src/timelock/storage.rs",
+     ["get_operation_state", "operation_exists", "is_operation_pending", "is_operation_ready", "is_operation_done"]),
+]
+READS_TIMELOCK = {"Timelock": {"get_operation_ledger": "u32", "ledger_sequence": "u32"}}
 
 FILES_WEBAUTHN = [
     ("WebAuthn", "packages/accounts/src/verifiers/webauthn.rs",
@@ -1082,7 +1181,7 @@ def translate(repo, FILES=FILES, DEPS=(), imports=("OZ.Model.RustSem",), reads=N
     out = ["-- GENERATED by /verif/tools/rs2lean.py from /repo's current sources. DO NOT EDIT."] + \
           [f"import {m}" for m in imports] + \
           ["set_option linter.unusedVariables false", "namespace OZ.Gen", "open OZ.Rs", ""]
-    sigs, consts, parsed = {}, {}, []
+    sigs, consts, parsed, enums, enum_home = {}, {}, [], {}, set()
     emit_ns = {ns for ns, _, _ in FILES}
     for ns, rel, only in list(DEPS) + list(FILES):
         src = open(os.path.join(repo, rel)).read()
@@ -1096,6 +1195,9 @@ def translate(repo, FILES=FILES, DEPS=(), imports=("OZ.Model.RustSem",), reads=N
                 except Unsupported:
                     continue   # a constant outside the subset is an error only if it is used
                 consts[it[1]] = (it[2], as_nat(l, lt_) if it[2] in NATTY else l)
+            elif it[0] == "enum":
+                enums[it[1]] = it[2]
+                enum_home.add((ns, it[1]))
             elif it[0] == "fn":
                 if only is not None and it[1] not in only:
                     continue
@@ -1108,6 +1210,7 @@ def translate(repo, FILES=FILES, DEPS=(), imports=("OZ.Model.RustSem",), reads=N
             r = re.sub(r"\bSelf\b", self_ty, f[3]) if self_ty else f[3]
             sigs[(ns, f[1])] = (ptys, r)
         parsed.append((ns, rel, fns))
+    reads_done = set()
     free_fns = {(ns, f[1]) for ns, rel, fns in parsed for f in fns if f[5] is None}
     # functions that need a `fuel` argument: those with a `while`, and (transitively) their callers
     def has_while(e):
@@ -1132,8 +1235,10 @@ def translate(repo, FILES=FILES, DEPS=(), imports=("OZ.Model.RustSem",), reads=N
         if ns not in emit_ns:
             continue
         out.append(f"/-! ## {rel} -/")
-        if ns in reads:
+        if ns in reads and ns not in reads_done:
+            reads_done.add(ns)
             g0 = Gen(sigs, consts)
+            g0.enums = enums
             out.append(f"/-- the state getters the translated functions read (`Self::name(e)`), as values -/\nstructure {ns}.Reads where")
             for rn, rt in reads[ns].items():
                 out.append(f"  {rn} : {g0.lean_ty(rt)}")
@@ -1161,10 +1266,19 @@ def translate(repo, FILES=FILES, DEPS=(), imports=("OZ.Model.RustSem",), reads=N
         g.fuel_fns = fuel_fns
         g.reads = reads.get(ns, {})
         g.reads_ns = set(reads)
+        g.enums = enums
         for f in order:
             out.append(g.function(ns, f, free))
     out.append("end OZ.Gen")
-    return "\n".join(out) + "\n"
+    # the unit enums the generated code mentions, declared once, before everything else
+    text = "\n".join(out)
+    decls = []
+    for en, vs in enums.items():
+        if re.search(r"\b" + re.escape(en) + r"\b", text):
+            decls.append(f"inductive {en} where\n" + "\n".join(f"  | {v_}" for v_ in vs) + "\n  deriving DecidableEq, Repr\n")
+    if decls:
+        text = text.replace("open OZ.Rs\n", "open OZ.Rs\n\n" + "\n".join(decls), 1)
+    return text + "\n"
 
 
 
@@ -1405,7 +1519,15 @@ def translate_imp(repo, ns, rel, only):
         if it[0] == "fn" and it[1] in only:
             out.append(ImpGen(consts).function(ns, it))
     out.append("end OZ.Gen")
-    return "\n".join(out) + "\n"
+    # the unit enums the generated code mentions, declared once, before everything else
+    text = "\n".join(out)
+    decls = []
+    for en, vs in enums.items():
+        if re.search(r"\b" + re.escape(en) + r"\b", text):
+            decls.append(f"inductive {en} where\n" + "\n".join(f"  | {v_}" for v_ in vs) + "\n  deriving DecidableEq, Repr\n")
+    if decls:
+        text = text.replace("open OZ.Rs\n", "open OZ.Rs\n\n" + "\n".join(decls), 1)
+    return text + "\n"
 
 
 def main():
@@ -1440,7 +1562,9 @@ def main():
                 sys.stdout.write(txt)
         sys.exit(rc)
     try:
-        if "--vault" in sys.argv:
+        if "--timelock" in sys.argv:
+            txt = translate(repo, FILES_TIMELOCK, reads=READS_TIMELOCK)
+        elif "--vault" in sys.argv:
             txt = translate(repo, FILES_VAULT, DEPS=FILES, imports=("OZ.Gen.Math",), reads=READS_VAULT)
         else:
             txt = translate(repo, FILES_WEBAUTHN if "--webauthn" in sys.argv else FILES)
